@@ -327,6 +327,24 @@ def classify_scc(ctx, crate, cg, comp):
             tf = crate.fns[t]
             c = f.blocks[bb]["t"][1]
             n_calls += 1
+            c_args = c["args"]
+            if via != "direct" and c.get("fn") in ("std::ops::Fn::call", "std::ops::FnMut::call_mut", "std::ops::FnOnce::call_once") \
+                    and tf.kind == "closure" and len(c["args"]) == 2 and op_local(c["args"][1]) is not None:
+                # a local closure invoked by name (`in_block(&node.body)`): the arguments travel in a tuple; unpack it and
+                # treat the call like a direct call of the closure body (_1 = environment, _2.. = the tuple's elements)
+                tup = [d for d in f.whole_defs(op_local(c["args"][1])) if d[0] == "assign" and d[3][0] == "agg" and d[3][1][0] == "tuple"]
+                if len(tup) == 1:
+                    c_args = [c["args"][0]] + list(tup[0][3][2])
+                    via = "direct"
+            if via != "direct" and tf.kind == "closure":
+                # is the closure itself an argument of this call, or does it merely occur in the captures of another
+                # closure that is (`.or_else(|| in_block(..))` mentions `in_block` in the thunk's type)?  In the second case
+                # the thunk invokes it, and that call is an edge of its own.
+                tag = "{closure@%s:%d:" % (tf.file, tf.line)
+                if not any(op_local(a) is not None and f.local_ty(op_local(a)).lstrip("&mut ").lstrip("&").startswith(tag) for a in c["args"]) \
+                        and any(op_local(a) is not None and "{closure@" in f.local_ty(op_local(a)) for a in c["args"]):
+                    n_calls -= 1
+                    continue
             if via != "direct":
                 # a closure of the SCC handed to an iterator adaptor etc.: the element it receives is
                 # produced from the receiver; check the receiver/args of this call
@@ -355,9 +373,9 @@ def classify_scc(ctx, crate, cg, comp):
                 continue
             ok_any = False
             for i in ast_params:
-                if i - 1 >= len(c["args"]):
+                if i - 1 >= len(c_args):
                     continue
-                a = c["args"][i - 1]
+                a = c_args[i - 1]
                 p = op_place(a)
                 if p is None:
                     continue
